@@ -31,8 +31,8 @@ def S(*names):
 
 def inst(name, peers, conns, tags=("t",), tagpeers=None, vals="{1, 2}", low=1, high=2, grace=1, maxage=1,
          silence=0, force=True, profile=1, prot2=(), prot1=(), decaymax=0, decayevery=1, split=False, maxburst=2,
-         dkinds=("fixed1",), bkinds=("bounded",), deltas="{1}"):
-    return name, {
+         dkinds=("fixed1",), bkinds=("bounded",), deltas="{1}", scale=""):
+    return name + ("@" + scale if scale else ""), {
         "Peers": S(*peers), "Conns": S(*conns), "Tags": S(*tags),
         "TagPeers": S(*(peers if tagpeers is None else tagpeers)), "Vals": vals, "Low": low, "High": high,
         "Grace": grace, "MaxAge": maxage, "Silence": silence, "HasForce": "TRUE" if force else "FALSE",
@@ -64,9 +64,11 @@ def replay_instances(ctx):
         inst("decay2", ("p1", "p2"), ("p1a", "p1b", "p2a"), vals="{1}", decaymax=2, decayevery=2, profile=3),
         # every decay function x bump function (18 initial states): removal with a residual `after`, overshoot
         # below zero, value 0 with the tag kept, Close, Bump/Remove after Close
-        inst("decayfn", ("p1", "p2"), ("p1a", "p2a"), tagpeers=("p1",), vals="{1}", decaymax=3, profile=3,
+        inst("decayfn", ("p1", "p2"), ("p1a", "p2a"), tagpeers=("p1",), vals="{1}", decaymax=3, profile=3, prot1=("p1",),
              dkinds=("fixed1", "fixed2", "half", "none", "residual", "zerokeep"),
              bkinds=("bounded", "unbounded", "overwrite"), deltas="{1, 3}"),
+        # VALUE dimension at its ends: classes {-2..2} sent to {MinInt, -100, 0, 100, MaxInt} by the harness
+        inst("extreme", P3, ("p1a", "p2a", "p3a"), tagpeers=("p1", "p2"), vals="<-MCValsExt", profile=1, scale="extreme"),
     ]
     if ctx.tier == "thorough":
         out += [
@@ -280,17 +282,25 @@ def _edge_stats(edges):
     return st
 
 
+def _cfg(consts, replace):
+    consts = dict(consts)
+    if str(consts["Vals"]).startswith("<-"):
+        replace = list(replace) + [("Vals = {1, 2}", "Vals <- " + consts.pop("Vals")[2:])]
+    return tlc.subst_cfg("C14_MC.cfg", consts, replace=replace)
+
+
 def _replay_instance(args):
     """One run: all invariants and properties AND every transition printed (VIEW without op)."""
     ctx, (name, consts), beh_dir = args
-    cfg = tlc.subst_cfg("C14_MC.cfg", consts, replace=[
-        ("INIT Init", "INIT MCInit"), ("VIEW View", "VIEW View\nACTION_CONSTRAINT EmitEdge")])
+    name, _, scale = name.partition("@")
+    cfg = _cfg(consts, [("INIT Init", "INIT MCInit"), ("VIEW View", "VIEW View\nACTION_CONSTRAINT EmitEdge")])
     r = tlc.run(ctx, "C14_MC", "gen_%s_edges.cfg" % name, cfg_text=cfg, workers=1, timeout=1500, name="ed" + name)
     if not r.ok:
         raise MachineryError("design-level failure in C14 %s: %s violated\n%s" % (name, r.violated, r.out[-2500:]))
     conf = [o for t, o in r.prints if t == "VFCONF"]
     if not conf:
         raise MachineryError("no VFCONF line for " + name)
+    conf[0]["scale"] = scale
     g = graph.Graph(r.inits, r.edges)
     if g.n_edges() == 0:
         raise MachineryError("no edges printed for " + name)
@@ -301,7 +311,7 @@ def _replay_instance(args):
     steps = sum(len(w["steps"]) for w in walks)
     graph.write_behaviours(os.path.join(beh_dir, name + ".jsonl"), walks,
                            {"name": name, "conf": conf[0], "edges": g.n_edges(), "states": g.n_states(),
-                            "state_layout": "[{peer: [kind n|t|c, conns, tags(-1 absent), value, age, protection tags, decaying tag d(-1 absent)]}, connCount, ticker phase, decay phase, trim in progress, [decay fn, bump fn, closed]]"})
+                            "state_layout": "[{peer: [kind n|t|c, conns, tags(-99 absent), value, age, protection tags, decaying tag d(-99 absent)]}, connCount, ticker phase, decay phase, trim in progress, [decay fn, bump fn, closed]]"})
     return name, r.distinct, r.generated, g.n_edges(), len(walks), steps, stats, r.wall
 
 
